@@ -120,8 +120,14 @@ def one(rec, t, ti, name, obj):
     data = bytes(w.to_bytearray())
     if data != ref_bytes:
         rec.count("real-bytes-differ-from-reference")
-    reader = t.EoReader(data)
-    ls = LockstepReader(reader, RefReader(data), fuel=min(50 * len(data) + 2000, 6 * len(data) + 200000))
+    # every fourth message is embedded: it sits behind bytes the caller has already consumed (a packet body
+    # behind its header, one record of a file behind another); positions are then not offsets from zero
+    prefix = b"\x03\x04\x05\xfe\x01" if rec.evals % 4 == 2 else b""
+    reader = t.EoReader(prefix + data)
+    ls = LockstepReader(reader, RefReader(prefix + data), fuel=min(50 * len(data) + 2000, 6 * len(data) + 200000))
+    if prefix:
+        ls.get_bytes(len(prefix))
+        rec.count("roundtrips-behind-a-consumed-prefix")
     try:
         back = C.deserialize(ls)
     except FuelExhausted:
@@ -142,9 +148,9 @@ def one(rec, t, ti, name, obj):
         case["xml"], case["bytes"] = t.files, data
         rec.violation("roundtrip-differs", "tree %d %s: %s  (bytes %s, value %r)" % (ti, name, "; ".join(diffs[:4]), data.hex(), obj), case)
         return
-    if reader.remaining != 0 or reader.position != len(data):
+    if reader.remaining != 0 or reader.position != len(prefix) + len(data):
         case["xml"], case["bytes"] = t.files, data
-        rec.violation("not-consumed-exactly", "tree %d %s: after deserialize remaining=%d position=%d of %d bytes" % (ti, name, reader.remaining, reader.position, len(data)), case)
+        rec.violation("not-consumed-exactly", "tree %d %s: after deserialize remaining=%d position=%d of %d bytes" % (ti, name, reader.remaining, reader.position - len(prefix), len(data)), case)
         return
     if getattr(back, "byte_size", None) != len(data):
         case["xml"], case["bytes"] = t.files, data
